@@ -490,6 +490,55 @@ def promOp : P String := do
   let v := v.failIf (!(decide (l ≤ iv + eps))) s!"bestPromisingAction value_below_optimal_value v={ratStr iv} ref={ratStr l}"
   return v.render
 
+/-! ### helpers one level below the anchored code: each is held to its own contract on the implementation's outputs -/
+
+/-- `bel <pomdp> <b0> b a o | unnorm partial partialUnnorm hasMass normalised expectedReward` -/
+def belOp : P String := do
+  let m ← pomdpP; let _b0 ← lvecP
+  let b ← lvecP; let a ← P.nat; let o ← P.nat; P.bar
+  let un ← lvecP; let part ← lvecP; let pun ← lvecP; let has ← P.bool; let nb ← lvecP; let er ← P.q; P.eof
+  if !validModel m then return "skip invalid_model"
+  let v : Verdict := { tag := "belief_update_helpers" ++ (if decide (mass m.S b.get = 1) then "" else " unnormalised_input") ++ (if has then "" else " impossible_observation") }
+  let ref := bstepV m b a o
+  let refPart := mkVec m.S (fun s1 => sumTo m.S (fun s => b.get s * m.T s a s1))
+  let v := v.failIf (!(closeVec m.S ref un)) s!"updateBeliefUnnormalized not_T_then_O model={showVec ref} impl={showVec un}"
+  let v := v.failIf (!(closeVec m.S refPart part)) s!"updateBeliefPartial not_b_times_T model={showVec refPart} impl={showVec part}"
+  let v := v.failIf (!(closeVec m.S ref pun)) s!"updateBeliefPartialUnnormalized not_O_times_partial model={showVec ref} impl={showVec pun}"
+  let ms := mass m.S ref.get
+  let v := v.failIf (has != decide (0 < ms)) s!"updateBeliefUnnormalized mass_sign mass={ratStr ms}"
+  let v := if has && decide (0 < ms) then
+      v.failIf (!(closeVec m.S (mkVec m.S (fun s => ref.get s / ms)) nb)) s!"updateBelief not_normalised_successor impl={showVec nb}"
+    else v
+  let v := v.failIf (!(close (rew m b.get a) er)) s!"beliefExpectedReward not_b_dot_R model={ratStr (rew m b.get a)} impl={ratStr er}"
+  return v.render
+
+def sameVE (S : Nat) (x y : VE) : Bool := x.action == y.action && x.values.size == y.values.size && allLt S (fun s => x.values.get s == y.values.get s)
+
+/-- `dom <pomdp> <b0> b vlist | best bestIdx kept eqNear eqFar eqFarSym` -/
+def domOp : P String := do
+  let m ← pomdpP; let _b0 ← lvecP
+  let b ← lvecP; let vl ← vlistP false; P.bar
+  let best ← P.q; let bi ← P.nat; let kept ← vlistP false; let e1 ← P.bool; let e2 ← P.bool; let e3 ← P.bool; P.eof
+  if !validModel m then return "skip invalid_model"
+  let v : Verdict := { tag := "prune_helpers" }
+  -- findBestAtPoint: the reported value is the value of the reported entry and no entry is worth more
+  let v := v.failIf (!(bi < vl.size && close (dotV m.S b (veVals vl bi)) best)) s!"findBestAtPoint value_not_of_returned_entry idx={bi} value={ratStr best}"
+  let worse := firstSome (List.range vl.size) (fun i => if decide (dotV m.S b (veVals vl i) ≤ best + epsOf m) then none else some s!"i={i} value={ratStr (dotV m.S b (veVals vl i))} best={ratStr best}")
+  let v := v.failIf worse.isSome s!"findBestAtPoint not_the_maximum {worse.getD ""}"
+  -- extractDominated: survivors are members of the input (never invents a vector: soundness of GapMin's start set) ...
+  let inv := firstSome kept.toList (fun e => if vl.any (sameVE m.S e) then none else some s!"a={e.action} {showVec e.values}")
+  let v := v.failIf inv.isSome s!"extractDominated survivor_not_in_input {inv.getD ""}"
+  -- ... and every input vector is dominated (1e-5) by a survivor, so the represented function is unchanged
+  let tol : Rat := 1 / 100000
+  let lost := firstSome vl.toList (fun e => if kept.any (fun k => allLt m.S (fun s => decide (e.values.get s ≤ k.values.get s + tol))) then none else some s!"a={e.action} {showVec e.values}")
+  let v := v.failIf lost.isSome s!"extractDominated dropped_undominated_vector {lost.getD ""}"
+  let dup := firstSome (List.range kept.size) (fun i => firstSome (List.range kept.size) (fun j =>
+    if i != j && allLt m.S (fun s => decide ((veVals kept i).get s ≤ (veVals kept j).get s)) then some s!"i={i} j={j}" else none))
+  let v := v.failIf dup.isSome s!"extractDominated kept_dominated_vector {dup.getD ""}"
+  -- checkEqualProbability: entries within 1e-6 are equal, an entry 3e-6 away is not, and the test is symmetric
+  let v := v.failIf (!(e1 && (!e2 || m.S == 0) && e2 == e3)) s!"checkEqualProbability tolerance_contract near={e1} far={e2} farSym={e3}"
+  return v.render
+
 def handle (toks : List String) : String :=
   let r := match toks with
     | "blind" :: rest => P.run blindOp rest
@@ -500,6 +549,8 @@ def handle (toks : List String) : String :=
     | "final" :: rest => P.run finalOp rest
     | "cons" :: rest => P.run consOp rest
     | "prom" :: rest => P.run promOp rest
+    | "bel" :: rest => P.run belOp rest
+    | "dom" :: rest => P.run domOp rest
     | _ => none
   r.getD "bad-op"
 
